@@ -615,6 +615,18 @@ class StyleElement(TTMLElement):
 
     if issubclass(parent_ctx.ttml_class, RegionElement):
 
+      # styles referenced by the nested style have a lower priority than its own style attributes
+
+      for style_ref in reversed(imsc_attr.StyleAttribute.extract(xml_elem)):
+        style_element = style_ctx.style_elements.get(style_ref)
+
+        if style_element is None:
+          LOGGER.error("non existant style id")
+          continue
+
+        for style_prop, value in style_element.styles.items():
+          style_ctx.styles.setdefault(style_prop, value)
+
       # nested styles are merged in document order, i.e. a later one overrides an earlier one;
       # inline styling, which has a higher priority, is applied afterwards
 
